@@ -117,6 +117,16 @@ pub proof fn lemma_wit_path(a0: AArena<2>, g: PolyhedraGen, path: Seq<usize>, ro
         lemma_wit_step(a0, path[k], l as int, path[j], w.v());
     }
 }
+// intersection_n (unit aff_algebra): a point its result tolerates is tolerated by every part - in the vocabulary of `contains`
+pub proof fn lemma_tol_parts(poly: Polytope, parts: Seq<Polytope>)
+    requires forall|w: V| #[trigger] tol_sat(poly.mat.m(), poly.bias.v(), w) ==> forall|k: int| 0 <= k < parts.len() ==> tol_sat((#[trigger] parts[k]).mat.m(), parts[k].bias.v(), w),
+    ensures forall|w: Array1<f64>| #[trigger] contains_tol(poly, w) ==> forall|k: int| 0 <= k < parts.len() ==> contains_tol(#[trigger] parts[k], w),
+{
+    reveal(contains_tol);
+    assert forall|w: Array1<f64>| #[trigger] contains_tol(poly, w) implies forall|k: int| 0 <= k < parts.len() ==> contains_tol(#[trigger] parts[k], w) by {
+        assert(tol_sat(poly.mat.m(), poly.bias.v(), w.v()));
+    }
+}
 // phases one / two: the new witnesses are tolerated by the intersection of the reported half-spaces, hence by each of them
 pub proof fn lemma_wit_poly(a0: AArena<2>, g: PolyhedraGen, path: Seq<usize>, root: usize, poly: Polytope, st: NodeState)
     requires gen_inv(a0, g, path), wf_at(a0, Some(root)), path.len() > 0, path[0] == root,
